@@ -33,6 +33,7 @@ MIN_REACH = {
     "states_judged": {"quick": 1500, "thorough": 30000},
     "grow_events_recorded": {"quick": 1200, "thorough": 25000},
     "failed_grows": {"quick": 40, "thorough": 800},
+    "failed_grows_iteration_protocol_exception": {"quick": 15, "thorough": 250},
     "check_bad_calls": {"quick": 40, "thorough": 800},
     "unwritable_results": {"quick": 40, "thorough": 800},
     "resows": {"quick": 40, "thorough": 800},
@@ -41,6 +42,18 @@ TIME_BUDGET = {"quick": 300, "thorough": 3000}
 
 OPS = ["grow", "grow", "grow_subset", "grow_missing", "grow_fail", "delete", "corrupt_check", "resow", "reload", "query",
        "grow_fn", "grow_unpicklable"]
+
+
+def _is_injected(err):
+    """The exception the function was told to raise, or one chained from it (a StopIteration leaving a generator
+    becomes RuntimeError by the language's own rules)."""
+    seen = 0
+    while err is not None and seen < 5:
+        if isinstance(err, tuple(probe.FAIL_EXCS.values())) and "probe told to fail" in str(err):
+            return True
+        err = err.__cause__ or err.__context__
+        seen += 1
+    return False
 
 
 def cases(ctx):
@@ -217,8 +230,10 @@ def run_case(ctx, case):
                 elif op == "grow_fail":
                     ids = rng.sample(sorted(allb), rng.randint(1, B))
                     j = rng.choice(ids)
-                    probe.write_ctl(ctl, fail=[rng.choice(batch_settings[j])])
+                    fail_exc = rng.choice(["ProbeFailure", "ProbeFailure", "StopIteration", "KeyError", "ZeroDivisionError", "StopAsyncIteration"])
+                    probe.write_ctl(ctl, fail=[rng.choice(batch_settings[j])], fail_exc=fail_exc)
                     expect_exc = True
+                    ctx.count("failed_grows_%s" % ("iteration_protocol_exception" if fail_exc.startswith("Stop") else "ordinary_exception"))
                     ctx.count("failed_grows")
                     try:
                         crop.grow(ids)
@@ -286,7 +301,7 @@ def run_case(ctx, case):
         done_hist.append(op if not ids else "%s%s" % (op, ids))
         if err is not None and expect_exc == "unpicklable":
             pass            # any exception from the failed write is fine
-        elif err is not None and not (expect_exc and isinstance(err, probe.ProbeFailure)):
+        elif err is not None and not (expect_exc and _is_injected(err)):
             ctx.violation(dict(case, at=list(done_hist)), "%s raised %r" % (op, err), dict(sig, oracle="no-exception", op=op, **exc_sig(err)))
             nviol += 1
             break
